@@ -11,7 +11,14 @@ None / explicit / partial / empty maps and independent sources outside the input
 Oracle (from the property text only, independent of the model): a symbolic interpreter computes every
 sink's term before and after; dedup: no two nodes with equal (payload, outputs, inputs), idempotent;
 split: every node in exactly one part (the one of its key), re-joining the parts along the reported cut
-edges gives back the original; expand: every consumer is wired to the leaf the output map selects.
+edges gives back the original; expand: every consumer is wired to the leaf the output map selects, every spliced
+node is (by name) what the documentation of expand_graph/Splicer says (mapped sources on the node's inputs per input
+map, inner edges, leaves with a default output), the sinks have the same VALUES under a concrete numeric
+interpretation in which each sub-graph denotes the node it replaces, names stay unique where the code can guarantee
+it; all transformations: the result has no dangling input and no cycle; the traversal hands every reachable node to
+the callbacks exactly once, parents first (Transformer docstring).
+The model runs its own traversal loop: the case is sent as listed (creation order); the finishing orders (graph and
+sub-graphs) and, for expand, the decidable domain are compared as well.
 """
 import collections
 import glob
@@ -21,50 +28,86 @@ from ekw import c11_lib as L
 
 PROPERTY = "C11"
 LEVEL_TEXT = ("Lean theorems over Model/Graph.lean (graph = topologically ordered node list + sinks; den = term over payloads, eval = value "
-              "under an interpretation of the payloads, both by recursion on the order; the generic Transformer traversal + output lookup; "
-              "_Copier, _Renamer, _DedupTransformer, Splitter/CutEdge, Splicer/_Subgraph/_Expander, _FuseTransformer), unbounded in graph size "
-              "and for all node/input/output names: copy and rename return the same structure (names mapped) with identical sink terms; dedup "
-              "keeps the set of sink terms, leaves no two nodes with equal payload/outputs/inputs and is idempotent; split gives every node "
-              "exactly one image, in the part of its key (reachability from the part's sinks), and re-joining by name along the reported cut "
-              "edges restores every node, the wiring, the sinks and all denotations; expand (whenever it returns) connects every consumer of an "
-              "expanded node to the default output of the prefixed copy of the sub-graph sink the output map selects and keeps leaves of "
-              "expanded sinks; fuse (whenever it returns) keeps every sink's value for every callback satisfying FuseSound, and the callback "
-              "used by the harness is proved sound; plus removeprefix vs lstrip-as-character-set with the decided witness main/mean. Tied to "
-              "the real transforms by a per-transformation correspondence check on random adversarially named DAGs and an independent "
-              "symbolic-interpreter oracle.")
+              "under an interpretation of the payloads, both by recursion on the order; the `while todo:` traversal loop of Transformer.transform "
+              "itself, the generic callback fold + output lookup; _Copier, _Renamer, join_namespaced/Graph.__add__, _DedupTransformer, "
+              "Splitter/CutEdge, Splicer (also subclasses overriding splice_source/splice_sink)/_Subgraph/_Expander, _FuseTransformer with "
+              "fresh-node and with current-mutating callbacks), unbounded in graph size and for all node/input/output names: the traversal loop "
+              "terminates on every well-formed graph within |sinks| + 2*|nodes| iterations and finishes exactly the nodes reachable from the "
+              "sinks, once each, parents first; the graph re-listed in that order is well formed with the same sink terms and values; copy "
+              "and rename return the same structure (names mapped) with identical sink terms (c11_copy/c11_copy_iso say that rebuilding every "
+              "node through the traversal and the output lookup reproduces the node list: the model's copy is the identity on the list, its "
+              "content is that it never fails and re-wires every input to the right image); join_namespaced/+ concatenate the operands' sink "
+              "terms; dedup keeps the set of sink terms, leaves no two nodes with equal payload/outputs/inputs and is idempotent; split gives "
+              "every node exactly one image, in the part of its key, and re-joining by name along the reported cut edges restores every node, "
+              "the wiring, the sinks and all denotations; expand is TOTAL on the decidable domain expandOK (sub-graphs are graphs, input maps "
+              "name existing inputs, every consumed output selects a usable leaf), for Splicer and for every sane override (SpliceOK): it "
+              "returns a well-formed (no dangling input, acyclic) graph whose node list is given in closed form - every kept node re-wired "
+              "through get_output of its parents' images, every expanded node replaced by the block sub.nodes.map(splicedNode): prefixed names, "
+              "mapped sources turned into processors on the node's re-wired input per input map, inner edges shifted into the block, mapped "
+              "sinks given the default output, leaves = the last sink of the selected name, inner sinks = the unselected sinks - and, for every "
+              "interpretation and every expander whose sub-graphs denote the nodes they replace (ExpandSound), every kept node (so every kept "
+              "sink) keeps its value and every usable output of an expanded sink is carried by a leaf that is a sink of the result; names stay "
+              "unique when the input's are unique and dot-free and each sub-graph's are unique (with a decided witness that dots break this); "
+              "fuse is TOTAL with a well-formed result and keeps every sink's value for every callback whose answers are sound in content "
+              "(FuseSound + outputs kept / FuseSoundM), whether an answer is a fresh node or `current` itself, mutated; the fresh-only model is "
+              "proved to be an instance of the mutating one and the harness' callbacks (any accept / in-place choice) are proved sound; plus "
+              "removeprefix vs lstrip-as-character-set with the decided witness main/mean. Tied to the real code by a per-transformation "
+              "correspondence check on random adversarially named DAGs (result graphs, visiting orders of graph and sub-graphs, decidable "
+              "domain of expand, outcome kinds) and independent oracles (symbolic terms, numeric values, by-name wiring incl. inside "
+              "sub-graphs, traversal order, no dangling input / cycle).")
 LEVEL_NOTE = ("modelled, not verified: graph/{nodes,graph,visit,transform,copy,rename,deduplicate,split,expand,fuse}.py. Object identity is "
-              "modelled by indices into a node store; the node order handed to the model is the order in which the real Transformer finishes "
-              "nodes (observed); payload equality, CutEdge hashing (cut names), and the user callbacks (key, expander, fusion) are parameters; "
-              "fusion callbacks are restricted to functions of the two nodes they are given that answer with a fresh node. Not proved (checked "
-              "by correspondence and oracle only): the wiring INSIDE a spliced sub-graph (mapped sources per input map), total correctness of "
-              "expand/fuse (the theorems are conditional on the transformation returning), custom Splitter.cut_edge / Splicer.splice_* overrides.")
-TECHNIQUE = "Lean 4 proof by induction over the topological order of the graph (simulation invariant of the generic Transformer fold) + differential correspondence with the real transforms + symbolic-interpreter oracle"
+              "modelled by indices into a node store; the object graph handed to the model is the node list in creation order (inputs refer to "
+              "earlier entries - what Node(...) guarantees) and the model runs its own traversal; payload equality, CutEdge hashing (cut names), "
+              "and the user callbacks (key, expander, fusion, splice overrides) are parameters. Restrictions: fusion callbacks are functions of "
+              "the two nodes they are given that answer with a fresh node or with `current` mutated - answering with another existing node "
+              "(e.g. the parent, mutated) or changing `parent` is not modelled (the store would no longer be topologically ordered); splice "
+              "overrides answer with a fresh node of the given name whose inputs are (a renaming/selection of) what they are given; sub-graphs "
+              "are values: after the fix 753c80b Splicer copies the sub-graph's nodes, so handing out one Graph object for several nodes is the "
+              "same as fresh copies (exercised); every transformer except copy_graph re-uses and re-wires the INPUT graph's node objects in "
+              "place (documented by the XXX comments), so 'input unchanged' is demanded of copy only. Known model mismatch outside the domain of "
+              "expand: asking for an output that does not exist makes the model stop with noOutput at the lookup, whereas the real "
+              "__transform_output falls through getattr to a (node, output) tuple or a _Subgraph instance attribute and fails later or not at "
+              "all; the comparison accepts exactly real-ok/real-KeyError against model-noOutput there and compares the domain flag on every case. "
+              "Not proved (checked by correspondence and oracle only, or not at all): custom Splitter.cut_edge overrides and other splicer "
+              "factories; sub-graphs with duplicate node names (the model files the LAST sink of a name as the leaf, as the code does; only "
+              "unique names are generated); inner sinks of an expanded node that is not itself a sink are not sinks of the result (modelled as "
+              "the code does it, nothing is claimed about them); fluent.Node graphs are run (thorough tier: copy, rename, dedup) but "
+              "fluent.Node.copy rebuilding from constructor arguments is not modelled beyond that; the expand value theorem needs the semantic "
+              "premise ExpandSound, which is not decidable in general.")
+TECHNIQUE = "Lean 4 proof by induction over the topological order of the graph (simulation invariant of the generic Transformer fold; closed form of the splice; potential argument for the traversal loop) + differential correspondence with the real transforms + symbolic-term / numeric / by-name wiring / traversal-order oracles"
 LEAN_PROPS = ["EkwVerif.Props.C11"]
 LEAN_DRIVERS = ["C11"]
 RULE = ("corpus of minimised past failures first, then random DAGs (1..9 nodes quick, ..14 thorough; a few more with a collision cluster): shared sub-expressions, multi-output nodes, exact duplicates incl. permuted input "
-        "order and near-duplicates, several sinks incl. non-terminal ones, adversarial names (prefixes/character overlap with parents, "
+        "order and near-duplicates, several sinks incl. non-terminal ones and (6%) the same node twice in Graph.sinks, adversarial names (prefixes/character overlap with parents, "
         "dots, digits, output names equal to Node attributes, input names equal to callback parameter names), node names BUILT FROM other "
         "nodes' names, output names and input names (<node>.<output>, <node>.0, several dots, a dotted name's prefix that declares the "
         "rest as an output, names equal to output / input names, equal names of different nodes), name-collision clusters (one dotted "
         "string split in several ways into node name + output name, so that str(Output) / '<node>.<output>' of different outputs "
         "coincide) with equal-payload, equal-outputs, equal-input-name consumers on the colliding outputs, and twins of existing nodes "
-        "re-pointed to outputs that render alike; split keys also by role (colliding producers in one part, consumers in others); "
+        "re-pointed to outputs that render alike; 55% of the graphs (45% of the sub-graphs) are LISTED (= their node objects created) in a "
+        "random topological order that is not the order in which the traversal finishes nodes; thorough tier: 12% of the copy/rename/dedup "
+        "graphs are built from fluent.Node objects; dedup also with custom predicates (payload+name, payload+name length); split keys also "
+        "by role (colliding producers in one part, consumers in others) and as equal keys of different Python types (1 / 1.0 / True); "
+        "join: 1-3 graphs under adversarial namespaces; "
         "expand: sub-graph node names (sources, inner nodes, leaves, extra sinks) from one pool with the expanded node's input names, "
         "output names, own name, the outer graph's node names and <node>.<x> forms; input map None / explicit full / partial / empty / "
         "two sources on one input, independent sources outside the map (also named like an input of the node); output map None / "
-        "explicit / partial / shared leaf / keys that are no outputs; expander answers bare Graph, 3-tuple and (outside the documented "
-        "domain, only counted) 1-/2-tuples; one case = one "
-        "transformation (copy, rename, dedup, split, expand, fuse) of one DAG with random parameters. non-trivial = the DAG has >= 3 nodes "
+        "explicit / partial / shared leaf / keys that are no outputs / values None; 30%: ONE sub-graph object handed out for several nodes; "
+        "40%: a Splicer subclass overriding splice_source / splice_sink (extra output + wrapped payload + input connected twice / renamed "
+        "inputs; only the first input kept); expander answers bare Graph, 3-tuple and (outside the documented "
+        "domain, only counted) 1-/2-tuples; fuse: callback answers fresh nodes, `current` mutated in place, or a mix chosen per parent; one case = one "
+        "transformation (copy, rename, dedup, split, expand, fuse, join) of one DAG with random parameters. non-trivial = the DAG has >= 3 nodes "
         "and a shared sub-expression, a multi-output node or several sinks; distinct by content hash of (transformation, DAG, parameters)")
 ASSUMPTIONS = [
     "graphs are built with Node(...)/get_output (inputs refer to declared outputs of existing nodes, acyclic); input names name/outputs/payload/self are rejected by Node(...) itself and are outside the domain",
-    "the node order given to the model is the order in which Transformer.transform finishes nodes (DFS post-order from the sinks)",
-    "split and expand cases use graphs with unique node names (CutEdge and the expander identify nodes by name); cut names (hash based) are treated as injective and compared through the reported cut edges",
-    "payloads are compared with == only (same_payload); the harness uses payload values for which == is an equivalence",
-    "an expander answers None, a Graph or a 3-tuple (graph, input map | None, output map | None) as documented; 1-/2-tuples and maps that select a leaf or an input that does not exist are generated and counted but nothing is demanded of them",
+    "the node list given to the model is the creation order of the node objects; the order in which Transformer.transform finishes nodes is computed by the model (travLoop) and compared with the observed one, for the graph and for every sub-graph",
+    "split and expand cases use graphs with unique node names, sub-graphs included (CutEdge and the expander identify nodes by name; Splicer files leaves by name); cut names (hash based) are treated as injective and compared through the reported cut edges",
+    "payloads are compared with == only (same_payload); the harness uses payload values for which == is an equivalence; custom dedup predicates are reflexive and imply equal payloads",
+    "an expander answers None, a Graph or a 3-tuple (graph, input map | None, output map | None) as documented; 1-/2-tuples and maps that select a leaf or an input that does not exist (outside the model's decidable domain expandOK, which is compared with the harness' own notion on every case) are generated and their outcome KINDS compared, but the oracle demands nothing of them",
+    "fusion callbacks and splice overrides are functions of their arguments that answer with a fresh node or (fusion) with `current` mutated; they do not touch other nodes",
 ]
 
-TRANSFORMS = ["copy", "rename", "dedup", "split", "expand", "fuse"]
+TRANSFORMS = ["copy", "rename", "dedup", "split", "expand", "fuse", "join"]
 
 
 # ----------------------------------------------------------------------------- real side + oracle
@@ -77,20 +120,169 @@ def _fail(kind, what):
     return {"kind": kind, "what": what}
 
 
+
+# ----------------------------------------------------------------------------- result is a graph / values
+
+def _assert_acyclic(sinks):
+    """Raise L.BadGraph if the object graph hanging off `sinks` has a cycle (extract would not return)."""
+    WHITE, GREY, BLACK = 0, 1, 2
+    colour = {}
+    keep = []
+    for s0 in sinks:
+        stack = [(s0, iter(list(getattr(s0, "inputs", {}).values()) if isinstance(getattr(s0, "inputs", None), dict) else []))]
+        if colour.get(id(s0), WHITE) != WHITE:
+            continue
+        colour[id(s0)] = GREY
+        keep.append(s0)
+        while stack:
+            n, it = stack[-1]
+            nxt = next(it, None)
+            if nxt is None:
+                colour[id(n)] = BLACK
+                stack.pop()
+                continue
+            p = getattr(nxt, "parent", None)
+            if p is None:
+                continue
+            c = colour.get(id(p), WHITE)
+            if c == GREY:
+                raise L.BadGraph(f"cycle through {getattr(p, 'name', '?')!r}")
+            if c == WHITE:
+                colour[id(p)] = GREY
+                keep.append(p)
+                ins = getattr(p, "inputs", None)
+                stack.append((p, iter(list(ins.values()) if isinstance(ins, dict) else [])))
+
+
+def _fl0(*a, **k):
+    return ("f0", a)
+
+
+def _fl1(*a, **k):
+    return ("f1", a)
+
+
+def _fl2(*a, **k):
+    return ("f2", a)
+
+
+def _fl3(*a, **k):
+    return ("f3", a)
+
+
+def _fl4(*a, **k):
+    return ("f4", a)
+
+
+FLUENT_FUNCS = [_fl0, _fl1, _fl2, _fl3, _fl4]
+
+
+def _pid(v):
+    """payload value -> payload id, also for the payload tuples (func, args, kwargs) of fluent.Node objects"""
+    if isinstance(v, tuple) and len(v) == 3 and callable(v[0]) and v[0] in FLUENT_FUNCS:
+        return FLUENT_FUNCS.index(v[0])
+    return L.payload_id(v)
+
+
+def build_fluent(ag):
+    """AG (inputs named input0.., outputs "0".."k-1", a `base` name per node) -> graph of earthkit.workflows.fluent.Node
+    objects: a Node subclass whose `copy()` is overridden and rebuilds the node from its constructor arguments."""
+    from earthkit.workflows.graph import Graph
+    from earthkit.workflows.fluent import Node as FluentNode
+    objs = []
+    for n in ag["nodes"]:
+        ins = [objs[j].get_output(o) for _, j, o in n["inputs"]]
+        objs.append(FluentNode(FLUENT_FUNCS[n["payload"] % len(FLUENT_FUNCS)], ins, num_outputs=len(n["outputs"]), name=n["base"]))
+    return Graph([objs[i] for i in ag["sinks"]]), objs
+
+
+def fluent_ag(rng, nmax):
+    """A random AG in the shape fluent.Node allows, with the names the constructor really gives (`base:hash`)."""
+    ag = L.gen_graph(rng, nmax, adversarial=False, unique_names=rng.random() < 0.7)
+    nodes = []
+    for n in ag["nodes"]:
+        k = len(n["outputs"])
+        nodes.append({"base": n["name"], "name": n["name"], "payload": n["payload"] % len(FLUENT_FUNCS),
+                      "outputs": [str(i) for i in range(k)],
+                      "inputs": [["input%d" % i, j, str(ag["nodes"][j]["outputs"].index(o))] for i, (_, j, o) in enumerate(n["inputs"])]})
+    shaped = {"nodes": nodes, "sinks": list(ag["sinks"])}
+    g, objs = build_fluent(shaped)
+    for n, o in zip(nodes, objs):
+        n["name"] = o.name
+    return shaped
+
+
+def _extract(sinks):
+    _assert_acyclic(sinks)
+    return L.extract(sinks, pid=_pid)
+
+
+def graph_fails(res, what):
+    """Oracle clause (all transformations): the result is a graph — every input is connected to an output its
+    parent DECLARES (no dangling input; acyclicity is checked before extraction)."""
+    for n in res["nodes"]:
+        for k, j, o in n["inputs"]:
+            if o not in res["nodes"][j]["outputs"]:
+                return [_fail("dangling-input", f"{what}: input {k!r} of {n['name']!r} is connected to output {o!r} "
+                              f"which {res['nodes'][j]['name']!r} does not declare")]
+    return []
+
+
+_P = (1 << 61) - 1
+
+
+def _h(*xs):
+    import hashlib
+    return int.from_bytes(hashlib.blake2b(repr(xs).encode(), digest_size=8).digest(), "big") % _P
+
+
+def num_val(payload, ins, o):
+    """A concrete interpretation of the payloads into numbers: value at output `o` (None = the node itself)
+    from the values at the inputs {input name: number}."""
+    return _h("V", L.hp(payload), o, tuple(sorted(ins.items())))
+
+
+def num_graph(ag):
+    """Values of an AG under num_val: per node {output: value} (+ None for the node as a whole)."""
+    vals = []
+    for n in ag["nodes"]:
+        ins = {k: vals[j][o] for k, j, o in n["inputs"]}
+        vals.append({o: num_val(n["payload"], ins, o) for o in list(n["outputs"]) + [None]})
+    return vals
+
+
+def relist(rng, ag):
+    """The same AG with its nodes listed in another (random) topological order: the order of the Node(...) calls,
+    which is NOT the order in which Transformer.transform finishes nodes."""
+    nodes = ag["nodes"]
+    n = len(nodes)
+    placed = []
+    pos = {}
+    left = set(range(n))
+    while left:
+        ready = sorted(i for i in left if all(j in pos for _, j, _ in nodes[i]["inputs"]))
+        i = rng.choice(ready)
+        pos[i] = len(placed)
+        placed.append(i)
+        left.discard(i)
+    return {"nodes": [dict(nodes[i], inputs=[[k, pos[j], o] for k, j, o in nodes[i]["inputs"]]) for i in placed],
+            "sinks": [pos[s_] for s_ in ag["sinks"]]}
+
+
 def real_copy(case):
     from earthkit.workflows.graph import copy_graph
     g, objs = _build_input(case["g"])
-    before = L.Sym().sinks(g)
+    before = L.Sym(_pid).sinks(g)
     try:
         c = copy_graph(g)
-        res = L.extract(c.sinks)
+        res = _extract(c.sinks)
     except Exception as e:
         return {"err": _exc(e)}, [_fail("raises", f"copy_graph raised {_exc(e)}: {e}")]
-    fails = []
-    after = L.Sym().sinks(c)
+    fails = graph_fails(res, "copy")
+    after = L.Sym(_pid).sinks(c)
     if after != before:
         fails.append(_fail("sink-terms-changed", "a sink of the copy denotes a different term than the corresponding sink of the input"))
-    if L.Sym().sinks(g) != before:
+    if L.Sym(_pid).sinks(g) != before:
         fails.append(_fail("input-changed", "copy_graph changed what the input graph's sinks denote"))
     return {"ok": res}, fails
 
@@ -104,14 +296,14 @@ def _rename_fn(case):
 def real_rename(case):
     from earthkit.workflows.graph import rename_nodes
     g, objs = _build_input(case["g"])
-    before = L.Sym().sinks(g)
+    before = L.Sym(_pid).sinks(g)
     try:
         r = rename_nodes(_rename_fn(case), g)
-        res = L.extract(r.sinks)
+        res = _extract(r.sinks)
     except Exception as e:
         return {"err": _exc(e)}, [_fail("raises", f"rename_nodes raised {_exc(e)}: {e}")]
-    fails = []
-    if L.Sym().sinks(r) != before:
+    fails = graph_fails(res, "rename")
+    if L.Sym(_pid).sinks(r) != before:
         fails.append(_fail("sink-terms-changed", "a sink of the renamed graph denotes a different term than the corresponding sink of the input"))
     fn = _rename_fn(case)
     if sorted(n["name"] for n in res["nodes"]) != sorted(fn(n["name"]) for n in case["g"]["nodes"]):
@@ -120,30 +312,40 @@ def real_rename(case):
 
 
 def _dup_key(n):
-    return (L.payload_id(n.payload), tuple(n.outputs), tuple(sorted((k, id(s.parent), s.name) for k, s in n.inputs.items())))
+    return (L.hp(_pid(n.payload)), tuple(n.outputs), tuple(sorted((k, id(s.parent), s.name) for k, s in n.inputs.items())))
+
+
+DEDUP_PREDS = {
+    # custom predicates (reflexive, imply equal payloads: the hypotheses of c11_dedup_den / c11_dedup_idem)
+    "payload+name": lambda a, b: a.payload == b.payload and a.name == b.name,
+    "payload+name-length": lambda a, b: a.payload == b.payload and len(a.name) == len(b.name),
+}
 
 
 def real_dedup(case):
     from earthkit.workflows.graph import deduplicate_nodes
     g, objs = _build_input(case["g"])
-    before = L.Sym().sinks(g)
+    before = L.Sym(_pid).sinks(g)
+    pred = DEDUP_PREDS.get(case.get("pred"))
+    dedup = (lambda gr: deduplicate_nodes(gr)) if pred is None else (lambda gr: deduplicate_nodes(gr, pred))
+    extra = {None: lambda n: (), "payload+name": lambda n: (n.name,), "payload+name-length": lambda n: (len(n.name),)}[case.get("pred")]
     try:
-        d = deduplicate_nodes(g)
-        res = L.extract(d.sinks)
+        d = dedup(g)
+        res = _extract(d.sinks)
     except Exception as e:
         return {"err": _exc(e)}, [_fail("raises", f"deduplicate_nodes raised {_exc(e)}: {e}")]
-    fails = []
-    if set(L.Sym().sinks(d)) != set(before):
+    fails = graph_fails(res, "dedup")
+    if set(L.Sym(_pid).sinks(d)) != set(before):
         fails.append(_fail("sink-terms-changed", "the set of sink terms after de-duplication differs from the input's"))
     nodes = list(d.nodes())
-    keys = collections.Counter(_dup_key(n) for n in nodes)
+    keys = collections.Counter(_dup_key(n) + extra(n) for n in nodes)
     if any(v > 1 for v in keys.values()):
-        fails.append(_fail("dedup-not-unique", "two result nodes have equal payload, outputs and inputs"))
+        fails.append(_fail("dedup-not-unique", "two result nodes have equal payload, outputs and inputs (and are equal under the predicate)"))
     try:
         c1 = L.canon(res, sort_sinks=True)
         g2, _ = L.build(res)
-        d2 = deduplicate_nodes(g2)
-        c2 = L.canon(L.extract(d2.sinks), sort_sinks=True)
+        d2 = dedup(g2)
+        c2 = L.canon(_extract(d2.sinks), sort_sinks=True)
         if c1 != c2:
             fails.append(_fail("dedup-not-idempotent", "de-duplicating the result again changes it"))
     except Exception as e:
@@ -156,10 +358,16 @@ def cut_canon_name(c):
     return "__cut|%s|%s|%s|%s|%s|%s__" % (c[0], c[1], c[2], c[3], c[4], c[5])
 
 
+_KEY_TYPES = {"int": int, "float": float, "bool": bool}
+
+
 def _key_fn(case):
+    """The key function: by node name.  case["keytypes"] makes it answer with equal keys of DIFFERENT Python types
+    (1, 1.0, True are one key for `==`, hash and dict lookup; the model's keys are numbers)."""
     table = dict(map(tuple, case.get("keys", [])))
+    types = dict(map(tuple, case.get("keytypes", [])))
     dflt = case.get("default", 0)
-    return lambda n: table.get(n.name, dflt)
+    return lambda n: _KEY_TYPES[types.get(n.name, "int")](table.get(n.name, dflt))
 
 
 def real_split(case):
@@ -169,17 +377,17 @@ def real_split(case):
     key = _key_fn(case)
     try:
         parts, cuts = split_graph(key, g)
-        cutt = [(c.source_key, c.source_node, c.source_output, c.dest_key, c.dest_node, c.dest_input) for c in cuts]
+        cutt = [(int(c.source_key), c.source_node, c.source_output, int(c.dest_key), c.dest_node, c.dest_input) for c in cuts]
         ren = {c.name: cut_canon_name(t) for c, t in zip(cuts, cutt)}
         res_parts = {}
         for k, pg in parts.items():
-            a = L.extract(pg.sinks)
+            a = _extract(pg.sinks)
             for n in a["nodes"]:
                 n["name"] = ren.get(n["name"], n["name"])
-            res_parts[k] = a
+            res_parts[int(k)] = a
     except Exception as e:
         return {"err": _exc(e)}, [_fail("raises", f"split_graph raised {_exc(e)}: {e}")]
-    fails = []
+    fails = [f for k, a in res_parts.items() for f in graph_fails(a, f"split part {k}")][:1]
     # --- oracle (property text): every node in exactly one part, the part of its key
     tab = dict(map(tuple, case.get("keys", [])))
     dflt = case.get("default", 0)
@@ -269,16 +477,83 @@ def _rejoin(parts, cuts):
     return nodes, sorted(sinks)
 
 
+# ----------------------------------------------------------------------------- Splicer subclasses (splice_source / splice_sink overridden)
+
+def _wrap(v, d):
+    """payload value -> the wrapped payload value (ids shifted by d; only the atoms used in sub-graphs)"""
+    return L.payload_value(L.payload_id(v) + d)
+
+
+_SPLICER_CLASSES = {}
+
+
+def splicer_factory(kind):
+    """The real `splicer=` argument of expand_graph for case["splicer"] (mirrored by tapSplice / firstSplice in Model/Graph.lean
+    and by SPLICE_HOOKS below for the oracle)."""
+    from earthkit.workflows.graph import Node
+    from earthkit.workflows.graph.expand import Splicer
+    if kind in (None, "default"):
+        return Splicer
+    if kind not in _SPLICER_CLASSES:
+        class TapSplicer(Splicer):
+            def splice_source(self, name, s, input):
+                outs = list(s.outputs) if "tap" in s.outputs else list(s.outputs) + ["tap"]
+                return Node(name, outs, _wrap(s.payload, 1000), src=input, ctl=input)
+
+            def splice_sink(self, name, s, /, **inputs):
+                return Node(name, ["0", "aux"], _wrap(s.payload, 2000), **{k + "_": v for k, v in inputs.items()})
+
+        class FirstSplicer(Splicer):
+            def splice_sink(self, name, s, /, **inputs):
+                first = dict(list(inputs.items())[:1])
+                return Node(name, outputs=None, payload=s.payload, **first)
+
+        _SPLICER_CLASSES.update(tap=TapSplicer, first=FirstSplicer)
+    return _SPLICER_CLASSES[kind]
+
+
+# what the overrides build, on AG nodes: src(m) -> (outputs, payload, input names all connected to `input`);
+# snk(m, given input names) -> (outputs, payload, None = inputs as given | [(new name, given name)])
+SPLICE_HOOKS = {
+    "default": {"src": lambda m: (list(m["outputs"]), m["payload"], ["input"]),
+                "snk": lambda m, keys: (["0"], m["payload"], None)},
+    "tap": {"src": lambda m: (list(m["outputs"]) if "tap" in m["outputs"] else list(m["outputs"]) + ["tap"], m["payload"] + 1000, ["src", "ctl"]),
+            "snk": lambda m, keys: (["0", "aux"], m["payload"] + 2000, [(k + "_", k) for k in keys])},
+    "first": {"src": lambda m: (list(m["outputs"]), m["payload"], ["input"]),
+              "snk": lambda m, keys: (["0"], m["payload"], [(k, k) for k in keys[:1]])},
+}
+
+
 class Invalid(Exception):
     """The expander's answer selects something that does not exist (no meaning is defined)."""
 
 
-def expected_expand(ag, table):
+def expected_expand(ag, table, splicer="default"):
     """Reference semantics of expansion, from the documentation of expand_graph: sorted sink terms of the
     expanded graph + the wiring of every consumer of an expanded node [(consumer, input, parent name)]."""
     nodes = ag["nodes"]
     T = L.INTERN
     memo_n, memo_s = {}, {}
+    hooks = SPLICE_HOOKS[splicer or "default"]
+
+    def spliced(j, q):
+        """(payload, outputs, [(input name, ("edge", outer j, o) | ("sub", sub-graph node, o))]) of sub-graph node q of the
+        sub-graph that replaces outer node j, as the splicer builds it"""
+        m = table[nodes[j]["name"]]["sub"]["nodes"][q]
+        if not m["inputs"]:
+            src = src_input(j, m["name"])
+            if src is None:
+                return m["payload"], list(m["outputs"]), []
+            outs, pay, keys = hooks["src"](m)
+            return pay, outs, [(k, ("edge",) + tuple(src)) for k in keys]
+        inner = [(k, ("sub", jj, o)) for k, jj, o in m["inputs"]]
+        if not m["outputs"] and m["name"] in leaf_names(j):
+            outs, pay, sel = hooks["snk"](m, [k for k, _, _ in m["inputs"]])
+            if sel is not None:
+                d = dict(inner)
+                inner = [(new, d[old]) for new, old in sel if old in d]
+            return pay, outs, inner
+        return m["payload"], list(m["outputs"]), inner
 
     def leaf_of(j, o):
         e = table[nodes[j]["name"]]
@@ -326,21 +601,13 @@ def expected_expand(ag, table):
         return None
 
     def sub_outputs(j, q):
-        m = table[nodes[j]["name"]]["sub"]["nodes"][q]
-        if m["inputs"] and not m["outputs"] and m["name"] in leaf_names(j):
-            return ["0"]
-        return list(m["outputs"])
+        return list(spliced(j, q)[1])
 
     def sub_term(j, q):
         if (j, q) not in memo_s:
-            sub = table[nodes[j]["name"]]["sub"]
-            m = sub["nodes"][q]
-            if not m["inputs"]:
-                src = src_input(j, m["name"])
-                ins = () if src is None else ((("input",) + out_term(*src)),)
-            else:
-                ins = tuple(sorted((k, o, sub_term(j, jj)) for k, jj, o in m["inputs"]))
-            memo_s[(j, q)] = T(("T", m["payload"], tuple(sub_outputs(j, q)), ins))
+            pay, outs, conn = spliced(j, q)
+            ins = tuple(sorted(((k,) + out_term(c[1], c[2])) if c[0] == "edge" else (k, c[2], sub_term(j, c[1])) for k, c in conn))
+            memo_s[(j, q)] = T(("T", pay, tuple(outs), ins))
         return memo_s[(j, q)]
 
     sinks = []
@@ -364,7 +631,64 @@ def expected_expand(ag, table):
             if nodes[j]["name"] in table:
                 lname, _ = leaf_of(j, o)
                 wiring.append((n["name"], k, nodes[j]["name"] + "." + lname, "0"))
-    return sorted(sinks), sorted(wiring)
+
+    # --- the same meaning in NUMBERS (interpretation num_val): an expanded node's output carries what the default
+    # output of the selected leaf computes when the sub-graph's mapped sources are fed from the node's inputs
+    nmemo_n, nmemo_s = {}, {}
+
+    def out_num(j, o):
+        if nodes[j]["name"] not in table:
+            return node_num(j)[o]
+        _, q = leaf_of(j, o)
+        return sub_num(j, q)["0"]
+
+    def node_num(i):
+        if i not in nmemo_n:
+            n = nodes[i]
+            ins = {k: out_num(j, o) for k, j, o in n["inputs"]}
+            nmemo_n[i] = {o: num_val(n["payload"], ins, o) for o in list(n["outputs"]) + [None]}
+        return nmemo_n[i]
+
+    def sub_num(j, q):
+        if (j, q) not in nmemo_s:
+            pay, outs, conn = spliced(j, q)
+            ins = {k: (out_num(c[1], c[2]) if c[0] == "edge" else sub_num(j, c[1])[c[2]]) for k, c in conn}
+            nmemo_s[(j, q)] = {o: num_val(pay, ins, o) for o in list(outs) + [None]}
+        return nmemo_s[(j, q)]
+
+    nums = []
+    for s in ag["sinks"]:
+        if nodes[s]["name"] in table:
+            nums += [sub_num(s, q)[None] for q in table[nodes[s]["name"]]["sub"]["sinks"]]
+        else:
+            nums.append(node_num(s)[None])
+
+    # --- the wiring INSIDE every spliced sub-graph, by name (documentation of expand_graph / Splicer): prefixed
+    # names, payloads kept, a mapped source becomes a processor whose single input `input` is the image of the
+    # node's input, unmapped sources and sinks stay, a mapped sink gets the default output, inner edges stay
+    def edge_image(j, o):
+        if nodes[j]["name"] not in table:
+            return (nodes[j]["name"], o)
+        lname, _ = leaf_of(j, o)
+        return (nodes[j]["name"] + "." + lname, "0")
+
+    inner = {}
+    ambiguous = set()        # `<node>.<sub-graph node>` strings that two different spliced nodes share: not identifiable by name
+    for i, n in enumerate(nodes):
+        if n["name"] not in table:
+            continue
+        sub = table[n["name"]]["sub"]
+        for q, m in enumerate(sub["nodes"]):
+            pay, outs, conn = spliced(i, q)
+            want_ins = tuple(sorted(((k,) + edge_image(c[1], c[2])) if c[0] == "edge"
+                                    else (k, n["name"] + "." + sub["nodes"][c[1]]["name"], c[2]) for k, c in conn))
+            full = n["name"] + "." + m["name"]
+            if full in inner:
+                ambiguous.add(full)
+            inner[full] = (L.hp(pay), tuple(outs), want_ins)
+    for full in ambiguous:
+        del inner[full]
+    return sorted(sinks), sorted(wiring), sorted(nums), inner
 
 
 def real_expand(case):
@@ -377,7 +701,16 @@ def real_expand(case):
         e = table.get(n.name)
         if e is None:
             return None
-        sg, _ = L.build(e["sub"])
+        if e.get("share") is not None:
+            # the expander hands out ONE Graph object for several nodes (a cached template sub-graph)
+            cache = _BUILT.setdefault("shared", {})
+            key = (e["share"], json.dumps(e["sub"], sort_keys=True))
+            if key not in cache:
+                cache[key] = L.build(e["sub"])
+            sg, sobjs = cache[key]
+        else:
+            sg, sobjs = L.build(e["sub"])
+            _BUILT.setdefault("subs", {})[n.name] = sobjs
         if e["imap"] is None and e["omap"] is None and e.get("bare"):
             return sg
         if e.get("shape") == 1:
@@ -387,26 +720,28 @@ def real_expand(case):
         return (sg, dict(map(tuple, e["imap"])) if e["imap"] is not None else None,
                 dict(map(tuple, e["omap"])) if e["omap"] is not None else None)
 
+    bad_shape = any(e.get("shape") in (1, 2) for nm, e in table.items() if any(n["name"] == nm for n in ag["nodes"]))
     try:
-        if any(e.get("shape") in (1, 2) for nm, e in table.items() if any(n["name"] == nm for n in ag["nodes"])):
+        if bad_shape:
             raise Invalid("the expander answers with a 1- or 2-tuple (documented: None, a Graph or a 3-tuple)")
-        want = expected_expand(ag, table)
+        want = expected_expand(ag, table, case.get("splicer"))
     except Invalid as e:
         want = None
+    dom = {} if bad_shape else {"domain": want is not None}     # compared with the model's decidable domain `expandOK`
     try:
-        r = expand_graph(ex, g)
-        res = L.extract(r.sinks)
+        r = expand_graph(ex, g, splicer_factory(case.get("splicer")))
+        res = _extract(r.sinks)
     except Exception as e:
         if want is None:
-            return {"err": _exc(e), "invalid": not isinstance(e, KeyError)}, []
-        return {"err": _exc(e)}, [_fail("raises", f"expand_graph raised {_exc(e)}: {e}")]
+            return {"err": _exc(e), "invalid": not isinstance(e, KeyError), **dom}, []
+        return {"err": _exc(e), **dom}, [_fail("raises", f"expand_graph raised {_exc(e)}: {e}")]
     if want is None:
         # meaningless expansion (selects a leaf / input that does not exist): whether the junk it produces is
         # ever looked at depends on the rest of the graph; outside the domain, nothing is compared
-        return {"ok": res, "invalid": True}, []
+        return {"ok": res, "invalid": True, **dom}, []
     fails = []
     if want is not None:
-        got = sorted(L.Sym().sinks(r))
+        got = sorted(L.Sym(_pid).sinks(r))
         if got != want[0]:
             fails.append(_fail("sink-terms-changed", "the sinks of the expanded graph do not denote the sinks of the input with every "
                                "expanded node replaced by its sub-graph (leaf selected by the output map, sources connected per input map)"))
@@ -423,9 +758,34 @@ def real_expand(case):
                 if not ok:
                     fails.append(_fail("expand-miswired", f"input {k!r} of {cname!r} is not connected to the default output of leaf {pname!r}"))
                     break
-    return {"ok": res, "stats": {"expand:wired_consumer_inputs": len(want[1]),
-                                 "expand:expanded_sinks": sum(1 for s_ in ag["sinks"] if ag["nodes"][s_]["name"] in table),
-                                 "expand:expansions": len(table)}}, fails
+            # the wiring inside the spliced sub-graphs
+            for fname, (pay, outs, wins) in sorted(want[3].items()):
+                n = byname.get(fname)
+                if n is None:
+                    continue      # not reachable from the result's sinks (e.g. an inner sink of a non-terminal expansion)
+                got = (L.hp(n["payload"]), tuple(n["outputs"]), tuple(sorted((kk, res["nodes"][j]["name"], oo) for kk, j, oo in n["inputs"])))
+                if got != (pay, outs, tuple(sorted(wins))):
+                    fails.append(_fail("expand-inner-miswired", f"spliced node {fname!r} is (payload, outputs, inputs) = {got}, "
+                                       f"the documented splice gives {(pay, outs, tuple(sorted(wins)))}"))
+                    break
+        # values under a concrete interpretation of the payloads
+        gf = graph_fails(res, "expand")
+        fails += gf
+        if not gf and sorted(v[None] for v in (num_graph(res)[s_] for s_ in res["sinks"])) != want[2]:
+            fails.append(_fail("expand-values-changed", "under the interpretation num_val the sinks of the expanded graph do not compute "
+                               "what the sinks of the input compute when every sub-graph denotes the node it replaces"))
+        # names stay unique where the code can guarantee it: unique outer names without '.', unique names in each sub-graph
+        if (len(outer) == len(ag["nodes"]) and not any("." in nm for nm in outer)
+                and all(len({m["name"] for m in e["sub"]["nodes"]}) == len(e["sub"]["nodes"]) for e in table.values())
+                and len(set(names)) != len(names)):
+            fails.append(_fail("expand-names-not-unique", "two nodes of the expanded graph have the same name although the input's names "
+                               "are unique and dot-free and each sub-graph's names are unique"))
+    return {"ok": res, **dom,
+            "stats": {"expand:wired_consumer_inputs": len(want[1]),
+                      "expand:expanded_sinks": sum(1 for s_ in ag["sinks"] if ag["nodes"][s_]["name"] in table),
+                      "expand:expansions": len(table),
+                      "expand:spliced_nodes_checked": sum(1 for nm_ in want[3] if any(n["name"] == nm_ for n in res["nodes"])),
+                      "expand:splicer:" + str(case.get("splicer") or "default"): 1}}, fails
 
 
 def _accept_fn(case):
@@ -444,8 +804,9 @@ def _accept_fn(case):
     return accept
 
 
-def inline_fuse(accept):
-    """The harness' fusion callback ("inline the parent"), mirrored by `inlineFuse` in Model/Graph.lean."""
+def inline_fuse(accept, inplace=lambda parent, pout, cur, cin: False):
+    """The harness' fusion callback ("inline the parent"), mirrored by `inlineFuse` / `inlineFuseM` in Model/Graph.lean.
+    Where `inplace(...)` holds the answer is `cur` ITSELF, mutated (name, payload, inputs), not a fresh node."""
     from earthkit.workflows.graph import Node
 
     def f(parent, pout, cur, cin):
@@ -458,8 +819,19 @@ def inline_fuse(accept):
         if any(k in kept for k in taken):
             return None
         payload = ("fuse", cur.payload, cin, parent.payload, pout, tuple(parent.inputs), tuple(parent.outputs))
+        if inplace(parent, pout, cur, cin):
+            cur.name = cur.name + "+" + parent.name
+            cur.payload = payload
+            cur.inputs = {**kept, **taken}
+            return cur
         return Node(cur.name + "+" + parent.name, list(cur.outputs), payload, **kept, **taken)
     return f
+
+
+def _inplace_fn(case):
+    mode = case.get("inplace", "none")
+    names = set(case.get("inplace_for", []))
+    return lambda parent, pout, cur, cin: mode == "all" or (mode == "table" and parent.name in names)
 
 
 def _pterm(p, env, outs):
@@ -488,10 +860,10 @@ def real_fuse(case):
     from earthkit.workflows.graph import fuse_nodes
     ag = case["g"]
     g, objs = _build_input(ag)
-    before = L.Sym().sinks(g)
+    before = L.Sym(_pid).sinks(g)
     cons = collections.Counter(j for n in ag["nodes"] for _, j, _ in n["inputs"])
     origin = {id(o): i for i, o in enumerate(objs)}
-    inner = inline_fuse(_accept_fn(case))
+    inner = inline_fuse(_accept_fn(case), _inplace_fn(case))
     calls = []
     keep = []
 
@@ -505,13 +877,17 @@ def real_fuse(case):
 
     try:
         r = fuse_nodes(cb, g)
-        res = L.extract(r.sinks)
+        res = _extract(r.sinks)
     except Exception as e:
         return {"err": _exc(e)}, [_fail("raises", f"fuse_nodes raised {_exc(e)}: {e}")]
-    fails = []
+    fails = graph_fails(res, "fuse")
     memo = {}
-    after = [_fterm(s_, memo, keep) for s_ in r.sinks]
-    if after != before:
+    try:
+        after = [_fterm(s_, memo, keep) for s_ in r.sinks]
+    except KeyError as e:
+        after = None      # a fused node lacks an input its fused payload needs: it cannot denote the original term
+        fails.append(_fail("sink-terms-changed", f"a fused node of the result lacks the input {e} its payload refers to"))
+    if after is not None and after != before:
         fails.append(_fail("sink-terms-changed", "a sink of the fused graph (fused payloads un-fused) denotes a different term than the corresponding sink of the input"))
     for pi, pout, ci, cin in calls:
         if pi is None or cons[pi] != 1:
@@ -521,7 +897,32 @@ def real_fuse(case):
     return {"ok": res, "stats": {"fuse:callback_calls": len(calls), "fuse:fused_nodes_in_result": nf}}, fails
 
 
-REAL = {"fuse": real_fuse, "copy": real_copy, "rename": real_rename, "dedup": real_dedup, "split": real_split, "expand": real_expand}
+def real_join(case):
+    """join_namespaced(**{namespace: graph}) = reduce(Graph.__add__, rename_nodes(prefix) ...)"""
+    from earthkit.workflows.graph import join_namespaced
+    g, objs = _build_input(case["g"])
+    graphs = {case["ns"]: g}
+    others = []
+    for ns, a in case.get("more", []):
+        g2, o2 = L.build(a)
+        others.append(o2)
+        graphs[ns] = g2
+    before = [t for gr in graphs.values() for t in L.Sym(_pid).sinks(gr)]
+    want_names = sorted(ns + "." + n["name"] for ns, a in [[case["ns"], case["g"]]] + case.get("more", []) for n in a["nodes"])
+    try:
+        r = join_namespaced(**graphs)
+        res = _extract(r.sinks)
+    except Exception as e:
+        return {"err": _exc(e)}, [_fail("raises", f"join_namespaced raised {_exc(e)}: {e}")]
+    fails = graph_fails(res, "join")
+    if L.Sym(_pid).sinks(r) != before:
+        fails.append(_fail("sink-terms-changed", "the sinks of the joined graph do not denote, in order, what the sinks of the operands denote"))
+    if sorted(n["name"] for n in res["nodes"]) != want_names:
+        fails.append(_fail("join-names", "the nodes of the joined graph are not named <namespace>.<name> for the nodes of the operands"))
+    return {"ok": res}, fails
+
+
+REAL = {"join": real_join, "fuse": real_fuse, "copy": real_copy, "rename": real_rename, "dedup": real_dedup, "split": real_split, "expand": real_expand}
 
 
 _VISITED = []
@@ -542,6 +943,32 @@ def _install_recorder():
     T.node_visit = node_visit
 
 
+def traversal_fails(ag, seq, complete, what="graph"):
+    """Oracle clause from the Transformer docstring ("the graph will be visited in topological order. A callback
+    method will be called on each node"): every node is handed to the callbacks at most once, after all the nodes
+    its inputs refer to; if the transformation returned, every node reachable from the sinks was."""
+    nodes = ag["nodes"]
+    seen = set()
+    for i in seq:
+        if i in seen:
+            return [_fail("traversal-order", f"{what}: node {nodes[i]['name']!r} was handed to the callbacks twice")]
+        for _, j, _ in nodes[i]["inputs"]:
+            if j not in seen:
+                return [_fail("traversal-order", f"{what}: node {nodes[i]['name']!r} was visited before its parent {nodes[j]['name']!r}")]
+        seen.add(i)
+    if complete:
+        reach = set()
+        stack = list(ag["sinks"])
+        while stack:
+            i = stack.pop()
+            if i not in reach:
+                reach.add(i)
+                stack += [j for _, j, _ in nodes[i]["inputs"]]
+        if reach - seen:
+            return [_fail("traversal-order", f"{what}: reachable nodes {sorted(nodes[i]['name'] for i in reach - seen)} were never visited")]
+    return []
+
+
 def run_case(case):
     """Real code + oracle on one case. Never raises. Adds out["order"] = observed visiting order of the
     input graph's nodes (a permutation of range(n)) when the whole graph was visited."""
@@ -554,13 +981,23 @@ def run_case(case):
         objs = _BUILT.get("objs")
         if objs is not None:
             idx = {id(o): i for i, o in enumerate(objs)}
-            order = []
-            for o in _VISITED:
-                i = idx.get(id(o))
-                if i is not None and i not in order:
-                    order.append(i)
+            seq = [idx[id(o)] for o in _VISITED if id(o) in idx]
+            order = list(dict.fromkeys(seq))
             if sorted(order) == list(range(n)):
                 out["order"] = order
+            fails = fails + traversal_fails(case["g"], seq, complete="ok" in out)
+            subs = {}
+            for nm, sobjs in _BUILT.get("subs", {}).items():
+                sidx = {id(o): i for i, o in enumerate(sobjs)}
+                sseq = [sidx[id(o)] for o in _VISITED if id(o) in sidx]
+                e = next((e for a, e in case.get("exp", []) if a == nm), None)
+                if e is not None:
+                    if "ok" in out and not out.get("invalid"):
+                        fails = fails + traversal_fails(e["sub"], sseq, complete=True, what=f"sub-graph of {nm!r}")
+                    if sorted(sseq) == list(range(len(sobjs))):
+                        subs[nm] = sseq
+            if subs:
+                out["suborders"] = subs
         del _VISITED[:]
         return out, fails
     except Exception as e:   # harness trouble is reported as a failure of the case, not a crash
@@ -572,19 +1009,9 @@ _BUILT = {}
 
 def _build_input(ag):
     """Build the input graph of a case and remember its node objects (for the visiting order)."""
-    g, objs = L.build(ag)
+    g, objs = build_fluent(ag) if ag["nodes"] and all("base" in n for n in ag["nodes"]) else L.build(ag)
     _BUILT["objs"] = objs
     return g, objs
-
-
-def permute_case(case, order):
-    """The same case with the nodes of the input graph listed in `order`."""
-    if order is None or order == list(range(len(order))):
-        return case
-    ag = case["g"]
-    pos = {old: new for new, old in enumerate(order)}
-    nodes = [dict(ag["nodes"][old], inputs=[[k, pos[j], o] for k, j, o in ag["nodes"][old]["inputs"]]) for old in order]
-    return dict(case, g={"nodes": nodes, "sinks": [pos[s] for s in ag["sinks"]]})
 
 
 # ----------------------------------------------------------------------------- classification / shrinking
@@ -605,13 +1032,17 @@ def classify(case):
                 return "attr-output"
             if sf["param_input"]:
                 return "param-input"
+        shared = collections.Counter((e["share"], json.dumps(e["sub"], sort_keys=True)) for nm, e in case.get("exp", [])
+                                     if nm in names and e.get("share") is not None)
+        if any(v > 1 for v in shared.values()):
+            return "shared-subgraph"
         for nm, e in case.get("exp", []):
             if nm not in names:
                 continue
             omap = dict(map(tuple, e["omap"])) if e["omap"] is not None else {}
             for o in names[nm]["outputs"]:
                 ln = omap.get(o, o)
-                if (nm + "." + ln).lstrip(nm + ".") != ln:      # where str.lstrip and str.removeprefix differ
+                if ln is not None and (nm + "." + ln).lstrip(nm + ".") != ln:      # where str.lstrip and str.removeprefix differ
                     return "lstrip"
         for s_ in ag["sinks"]:
             n = ag["nodes"][s_]
@@ -637,6 +1068,8 @@ def neighbors(case):
                 c["exp"] = [[new if a == old else a, e] for a, e in c["exp"]]
             if "accept" in c:
                 c["accept"] = [new if a == old else a for a in c["accept"]]
+            if "inplace_for" in c:
+                c["inplace_for"] = [new if a == old else a for a in c["inplace_for"]]
         if change and change[0] == "rename-output" and "exp" in c:
             _, nm, old, new = change
             exp2 = []
@@ -705,9 +1138,17 @@ def shrink(case, kind, budget=600):
 
 # ----------------------------------------------------------------------------- generation
 
+FLUENT_P = 0.0      # share of copy/rename/dedup cases on fluent.Node graphs; set by correspond(): importing
+                    # earthkit.workflows.fluent (xarray, pandas) costs several seconds, so thorough tier only
+
+
 def gen_case(rng, t, nmax, adversarial=True):
     unique = t in ("split", "expand") or rng.random() < (0.7 if t in ("dedup", "fuse") else 0.85)
-    ag = L.gen_graph(rng, nmax, adversarial=adversarial, unique_names=unique)
+    if t in ("copy", "rename", "dedup") and FLUENT_P > 0 and rng.random() < FLUENT_P:
+        # a graph of fluent.Node objects (Node subclass with its own `copy`, names `base:hash`, inputs input0..)
+        ag = fluent_ag(rng, nmax)
+    else:
+        ag = L.gen_graph(rng, nmax, adversarial=adversarial, unique_names=unique)
     case = {"t": t, "g": ag}
     names = [n["name"] for n in ag["nodes"]]
     if t == "rename":
@@ -720,12 +1161,20 @@ def gen_case(rng, t, nmax, adversarial=True):
                                             other["name"] + "." + rng.choice(other["outputs"] + ["0"]),
                                             rng.choice(other["outputs"] + [k for k, _, _ in other["inputs"]] + ["0"])])])
         case["table"] = tab
+    if t == "dedup" and rng.random() < 0.3:
+        case["pred"] = rng.choice(sorted(DEDUP_PREDS))
     if t == "fuse":
         if rng.random() < 0.6:
             case["g"] = ag = L.gen_chainy(rng, nmax, adversarial=adversarial)
             names = [n["name"] for n in ag["nodes"]]
         case["mode"] = rng.choice(["all", "all", "table", "linear"])
         case["accept"] = [nm for nm in sorted(set(names)) if rng.random() < 0.6]
+        r = rng.random()
+        if r < 0.25:
+            case["inplace"] = "all"                   # the callback mutates `current` and returns it
+        elif r < 0.5:
+            case["inplace"] = "table"                 # ... for some parents only: fresh and mutated answers mixed
+            case["inplace_for"] = [nm for nm in sorted(set(names)) if rng.random() < 0.5]
     if t == "expand":
         exp = []
         for n in ag["nodes"]:
@@ -734,7 +1183,30 @@ def gen_case(rng, t, nmax, adversarial=True):
         if not exp:
             n = rng.choice(ag["nodes"])
             exp.append([n["name"], gen_expansion(rng, n, adversarial=adversarial, ag=ag)])
+        if rng.random() < 0.3:
+            # one sub-graph OBJECT for several nodes: the expander answers with the same Graph for every node that has
+            # the outputs of the first one (the maps are per node: an explicit input map keeps the entries that name
+            # an input the node has)
+            nm0, e0 = rng.choice(exp)
+            n0 = next(n for n in ag["nodes"] if n["name"] == nm0)
+            twins = [n for n in ag["nodes"] if n["name"] != nm0 and n["outputs"] == n0["outputs"]]
+            rng.shuffle(twins)
+            for n in twins[:rng.choice([1, 1, 2, 3])]:
+                inames = {k for k, _, _ in n["inputs"]}
+                e1 = {"sub": e0["sub"], "omap": e0["omap"], "share": 0,
+                      "imap": None if e0["imap"] is None else [[a, b] for a, b in e0["imap"] if b in inames]}
+                if e0.get("bare") and e1["imap"] is None and e1["omap"] is None:
+                    e1["bare"] = True
+                exp = [[a, e] for a, e in exp if a != n["name"]] + [[n["name"], e1]]
+                e0["share"] = 0
         case["exp"] = exp
+        sp = rng.choice(["default", "default", "default", "tap", "first"])
+        if sp != "default":
+            case["splicer"] = sp          # a Splicer subclass overriding splice_source / splice_sink
+    if t == "join":
+        nss = rng.sample(["a", "main", "a.b", "g1", "x.", "0", "n"], rng.randint(1, 3))
+        case["ns"] = nss[0]
+        case["more"] = [[ns, L.gen_graph(rng, max(1, nmax // 2), adversarial=adversarial, unique_names=rng.random() < 0.8)] for ns in nss[1:]]
     if t == "split":
         nk = rng.randint(1, 4)
         case["default"] = 0
@@ -744,6 +1216,17 @@ def gen_case(rng, t, nmax, adversarial=True):
             # consumers spread over the others, so that the colliding edges are the ones that are cut
             cons = {j for n in ag["nodes"] for _, j, _ in n["inputs"]}
             case["keys"] = [[n["name"], 0 if i in cons else rng.randint(1, max(1, nk - 1))] for i, n in enumerate(ag["nodes"])]
+        if rng.random() < 0.25:
+            # equal keys of different Python types: 0 / 0.0 / False and 1 / 1.0 / True
+            case["keytypes"] = [[nm, rng.choice(["float", "bool"] if k in (0, 1) else ["float"])] for nm, k in case["keys"] if rng.random() < 0.5]
+    # the listing (= creation order of the node objects) is mostly NOT the order in which the traversal finishes
+    # nodes; the model computes that order itself (travLoop) and is compared with the real one
+    r = rng.random()
+    if r < 0.55:
+        case["g"] = relist(rng, case["g"])
+    if r < 0.06 and case["g"]["sinks"]:
+        g2 = case["g"]
+        case["g"] = dict(g2, sinks=g2["sinks"] + [rng.choice(g2["sinks"])])      # the same node twice in Graph.sinks
     return case
 
 
@@ -862,6 +1345,9 @@ def gen_expansion(rng, node, adversarial=True, ag=None):
         leaves[ln] = len(nodes) - 1
     if use_omap and rng.random() < 0.12:
         omap.append([fresh("no-such-output"), rng.choice(list(leaves) + [pick()])])     # key that is no output: ignored
+    if use_omap and omap and rng.random() < 0.08:
+        i = rng.randrange(len(omap))
+        omap[i] = [omap[i][0], None]            # `dict[str, str | None]`: this output is connected to nothing
     if use_omap and omap:
         rng.shuffle(omap)
     for _ in range(rng.choice([0, 0, 0, 1, 1, 2])):
@@ -879,6 +1365,8 @@ def gen_expansion(rng, node, adversarial=True, ag=None):
             sinks.append(i)                                   # a non-terminal node of the sub-graph that is a sink too
     rng.shuffle(sinks)
     sub = L.normalise({"nodes": nodes, "sinks": sinks})
+    if rng.random() < 0.45:
+        sub = relist(rng, sub)         # Splicer.transform traverses the sub-graph: listing order != finishing order
     e = {"sub": sub, "imap": imap, "omap": omap}
     if imap is None and omap is None and rng.random() < 0.5:
         e["bare"] = True
@@ -899,6 +1387,8 @@ def expansion_features(case):
         inames = {k for k, _, _ in n["inputs"]}
         sub = e["sub"]
         f["exp:shape:" + ("bare" if e.get("bare") else str(e.get("shape", 3)) + "-tuple")] += 1
+        if e.get("share") is not None:
+            f["exp:shared_subgraph_object"] += 1
         f["exp:imap:" + ("none" if e["imap"] is None else "empty" if not e["imap"] else
                          "full" if {b for _, b in e["imap"]} >= inames else "partial")] += 1
         outs = set(n["outputs"])
@@ -931,18 +1421,61 @@ def _nontrivial(ag):
 
 # ----------------------------------------------------------------------------- model side
 
+NO_LEAF = "\u0001<None>"      # stands for the output-map value None on the model side: a name no sub-graph node has
+
+
+def _for_model(case):
+    if case["t"] != "expand" or not any(e["omap"] and any(b is None for _, b in e["omap"]) for _, e in case.get("exp", [])):
+        return case
+    return dict(case, exp=[[a, dict(e, omap=None if e["omap"] is None else [[x, NO_LEAF if y is None else y] for x, y in e["omap"]])]
+                           for a, e in case["exp"]])
+
+
 def model_outs(cases):
     from ekw.core import lean_drive
-    res = lean_drive("C11", [json.dumps(c) for c in cases])
+    res = lean_drive("C11", [json.dumps(_for_model(c)) for c in cases])
     return [json.loads(x) for x in res]
+
+
+# error kinds, un-collapsed: the model's Err constructors and the Python exception classes are put in classes
+#   key    : a dict lookup failed (`Splicer.__init__` with an input map naming an input the node does not have)
+#   output : an output that does not exist was asked for.  The model answers `noOutput` at the lookup; the real
+#            `__transform_output` never raises there - it falls through getattr to the `(node, output)` tuple (or, for a
+#            `_Subgraph`, to an instance attribute), and the junk either makes `Node(...)` / a later call raise
+#            AttributeError / TypeError or ends up as an input of the result (BadGraph when the result is read back)
+#   assert : a Python assert
+_ERR_CLASS = {"keyError": "key", "KeyError": "key",
+              "noOutput": "output", "dangling": "output", "AttributeError": "output", "BadGraph": "output", "TypeError": "output",
+              "assertion": "assert", "AssertionError": "assert"}
+
+
+def err_class(out):
+    return _ERR_CLASS.get(str(out.get("err")), "other:" + str(out.get("err")))
+
+
+def outcome_mismatch(t, io, mo):
+    """None if the outcomes of the real code (io) and of the model (mo) agree in kind, else a description.
+    Inside the domain (no error on either side is possible) any error is a mismatch.  Outside the domain of expand
+    the model is EAGER about missing outputs where the code is lazy (see above), so exactly these are accepted:
+    real ok + model `output` (the junk was never looked at), real `key` + model `output` (the model stopped earlier)."""
+    ie, me = "err" in io, "err" in mo
+    if not ie and not me:
+        return None
+    ic = err_class(io) if ie else "ok"
+    mc = err_class(mo) if me else "ok"
+    if ic == mc:
+        return None
+    if t == "expand" and mo.get("domain") is False and mc == "output" and ic in ("ok", "key"):
+        return None
+    return f"real outcome {ic} ({io.get('err')}), model outcome {mc} ({mo.get('err')})"
 
 
 def canon_out(t, out):
     """Canonical comparable form of an outcome (model or impl)."""
     if "err" in out:
-        return {"err": True}
+        return {"err": err_class(out)}
     o = out["ok"]
-    if t in ("copy", "rename", "expand", "fuse"):
+    if t in ("copy", "rename", "expand", "fuse", "join"):
         return {"ok": L.canon(o)}
     if t == "dedup":
         return {"ok": L.canon(o, sort_sinks=True)}
@@ -974,8 +1507,10 @@ def _load_corpus():
 
 
 def correspond(ctx):
-    n = ctx.budget(8400, 60000)
+    global FLUENT_P
+    n = ctx.budget(7000, 60000)
     nmax = ctx.budget(9, 14)
+    FLUENT_P = ctx.budget(0, 12) / 100.0
     cases = _load_corpus()
     for i in range(n):
         t = TRANSFORMS[i % len(TRANSFORMS)]
@@ -990,6 +1525,15 @@ def correspond(ctx):
         ctx.case({"t": case["t"], "g": ag, **{k: v for k, v in case.items() if k not in ("t", "g")}}, nontrivial=_nontrivial(ag))
         ctx.count("cases")
         ctx.count("t:" + case["t"])
+        if ag["nodes"] and all("base" in x for x in ag["nodes"]):
+            ctx.count("fluent_node_graph:" + case["t"])
+        for fld in ("pred", "inplace"):
+            if case.get(fld):
+                ctx.count(f"{case['t']}:{fld}:{case[fld]}")
+        if case.get("keytypes"):
+            ctx.count("split:keys_of_mixed_python_types")
+        if case["t"] == "expand" and any(e["omap"] and any(b is None for _, b in e["omap"]) for _, e in case.get("exp", [])):
+            ctx.count("expand:output_map_value_None")
         ctx.count("nodes", len(ag["nodes"]))
         for k, v in f.items():
             if v:
@@ -1012,13 +1556,48 @@ def correspond(ctx):
             _, f2 = run_case(small)
             what = next((x["what"] for x in f2 if x["kind"] == fl["kind"]), fl["what"])
             ctx.violation({"kind": fl["kind"], "t": case["t"], "cause": classify(small)}, small, f"{case['t']}: {what}")
-    mouts = model_outs([permute_case(c, io.get("order")) for c, io in zip(cases, impl)])
+    # the model runs its OWN traversal (visitOrder / reorder, c11_traverse_terminates) on the graph as listed; the
+    # order it computes is compared with the order in which the real Transformer finished the nodes
+    mouts = model_outs(cases)
     for case, io, mo in zip(cases, impl, mouts):
         ctx.traces += 1
         t = case["t"]
-        if io.get("invalid"):
-            ctx.count("invalid_expansion_not_compared")
+        if "order" in io:
+            ctx.count("orders_compared")
+            if io["order"] != list(range(len(io["order"]))):
+                ctx.count("orders_compared:not_listing_order")
+            if mo.get("order") != io["order"]:
+                ctx.disagree(t + "-order", case, mo.get("order"), io["order"])
+                continue
+        if t == "expand":
+            msub = {a: o for a, o in (mo.get("suborders") or []) if o is not None}
+            for nm, so in (io.get("suborders") or {}).items():
+                ctx.count("suborders_compared")
+                if so != list(range(len(so))):
+                    ctx.count("suborders_compared:not_listing_order")
+                if msub.get(nm) != so:
+                    ctx.disagree("expand-suborder", case, msub.get(nm), so)
+            if "domain" in io:
+                ctx.count("expand:domain_compared:" + ("in" if io["domain"] else "out"))
+                if mo.get("domain") != io["domain"]:
+                    ctx.disagree("expand-domain", case, mo.get("domain"), io["domain"])
+                    continue
+                if io["domain"] and "err" in io:
+                    ctx.disagree("expand-total", case, mo, io)      # in the domain the real code must return (c11_expand_total)
+                    continue
+        if t == "expand" and "domain" not in io:
+            ctx.count("expand:undocumented_answer_shape_not_compared")       # 1-/2-tuples: ValueError in the real code, no model
             continue
+        bad = outcome_mismatch(t, io, mo)
+        if bad is not None:
+            ctx.disagree(t + "-outcome", case, mo, bad)
+            continue
+        if "err" in io or "err" in mo:
+            ctx.count("outcome_kinds_compared:" + (err_class(io) if "err" in io else "ok") + "/" + (err_class(mo) if "err" in mo else "ok"))
+            continue
+        if io.get("invalid"):
+            # outside the domain both returned: the graphs are compared as well (nothing is demanded by the oracle)
+            ctx.count("invalid_expansion_both_returned_compared")
         try:
             if t == "split" and "ok" in mo:
                 mo = {"ok": model_split_view(mo["ok"])}
